@@ -21,7 +21,7 @@ RULE = ('seeded random histories (1-80 ops; to 400 thorough) of dict-API operati
         'history and on every copy(); distinct = distinct (class, max_size, recency order) model states '
         'reached that are full (an insert would evict)')
 ASSUMPTIONS = [
-    'keys are short strings (so update(**kw) is reachable); values small ints',
+    'keys are short strings (so update(**kw) is reachable), in a quarter of the histories mixed with 1, 1.0, True, 2 and None (equal-but-distinct keys); values small ints',
     'popitem may remove any present pair (the model follows the real choice)',
     'iteration order of the cache is not specified by the property; only the key set is compared',
     'the counters / on_miss of a copy() are not specified and not compared',
@@ -111,10 +111,10 @@ class Run(object):
         chk('len', lambda: len(c), len(want))
         if len(c) > self.max_size:
             self.fail('capacity', 'len %d > max_size %d' % (len(c), self.max_size))
-        chk('iter', lambda: sorted(list(c)), sorted(want))
-        chk('keys', lambda: sorted(c.keys()), sorted(want))
+        chk('iter', lambda: sorted(list(c), key=skey), sorted(want, key=skey))
+        chk('keys', lambda: sorted(c.keys(), key=skey), sorted(want, key=skey))
         chk('values', lambda: sorted(c.values(), key=repr), sorted(want.values(), key=repr))
-        chk('items', lambda: sorted(c.items(), key=repr), sorted(want.items(), key=repr))
+        chk('items', lambda: sorted(c.items(), key=lambda kv: (skey(kv[0]), repr(kv[1]))), sorted(want.items(), key=lambda kv: (skey(kv[0]), repr(kv[1]))))
         for k in pool:
             chk('contains', lambda: k in c, k in want)
         chk('counters', lambda: (c.hit_count, c.miss_count, c.soft_miss_count), (st[1], st[2], st[3]))
@@ -128,7 +128,7 @@ class Run(object):
         other['zz-other'] = 1
         chk('eq[dict,extra-key]', lambda: c == other, False)
         if want:
-            k0 = sorted(want)[0]
+            k0 = sorted(want, key=skey)[0]
             ch = dict(want)
             ch[k0] = 'changed'
             chk('eq[dict,value-changed]', lambda: c == ch, False)
@@ -330,7 +330,20 @@ class Run(object):
 
 
 def pool_for(cfg):
-    return ['k%d' % i for i in range(cfg['max_size'] + 3 if cfg['max_size'] < 100 else 8)]
+    pool = ['k%d' % i for i in range(cfg['max_size'] + 3 if cfg['max_size'] < 100 else 8)]
+    if cfg.get('keys') == 'mixed':
+        # equal-but-distinct keys (1 == 1.0 == True) and None next to the strings
+        pool = pool[:max(2, len(pool) - 4)] + [1, 1.0, True, 2, None]
+    return pool
+
+
+def skey(x):
+    """Sort key for mixed-type keys that agrees with ==."""
+    if isinstance(x, str):
+        return (2, x)
+    if isinstance(x, (int, float)):
+        return (0, float(x))
+    return (1, repr(x))
 
 
 class Check(object):
@@ -344,6 +357,8 @@ class Check(object):
         ms = r.choice([1, 1, 2, 2, 3, 3, 4, 5, 128])
         cfg = {'cls': r.choice(['LRI', 'LRU']), 'max_size': ms,
                'on_miss': r.choice([False, False, False, True, True, 'prefetch'])}
+        if r.random() < 0.25:
+            cfg['keys'] = 'mixed'
         pool = pool_for(cfg)
         shape = r.choice(['none', 'none', 'dict', 'pairs', 'iter'])
         cfg['values_shape'] = shape
@@ -376,7 +391,7 @@ class Check(object):
                 pairs = [[r.choice(pool), r.randint(0, 9)] for _ in range(r.randint(0, ms + 2 if ms < 100 else 5))]
                 o = [kind, shape, pairs if shape != 'self' else []]
                 if kind == 'update':
-                    o.append([[r.choice(pool), r.randint(0, 9)]] if r.random() < 0.25 else [])
+                    o.append([[r.choice([x for x in pool if isinstance(x, str)]), r.randint(0, 9)]] if r.random() < 0.25 else [])
                 ops.append(o)
             else:
                 ops.append([kind])
